@@ -355,6 +355,14 @@ func init() {
 			if r.Intn(12) == 0 {
 				rr = deepCopy(l).(map[string]any)
 			}
+			if r.Intn(5) == 0 {
+				// a list of records on both sides that differ in the NAME of one member only (same values, in name order)
+				k := o.keys[r.Intn(len(o.keys))]
+				rec := func(name string) any {
+					return []any{map[string]any{name: "MODE", "value": "fast"}, map[string]any{"only": []any{map[string]any{name: 1}}}}
+				}
+				l[k], rr[k] = rec("name"), rec("key")
+			}
 			if idx%10 == 7 { // the same through the template function domdiff
 				return c07DomDiff(r, idx, l, rr)
 			}
